@@ -833,6 +833,24 @@ func (in *inst) checkClient(sm *oxia.VerifC18ShardManager, ns string, ps []pubSh
 			return
 		}
 	}
+	// a partition key maps to exactly one shard: what is written under it (routed per record) is where a list,
+	// range scan or range delete with that partition key looks for it
+	for _, pk := range []string{"", "x", "a/b"} {
+		want := ownerOf(ps, hash.Xxh332(pk))
+		rng, ok := oxia.VerifC18RangeRoute(sm, pk)
+		if !ok || rng != want {
+			in.violate("partition-key-range-route-disagrees", fmt.Sprintf("%s of %s: List/RangeScan/DeleteRange with partition key %q go to shard %d (ok=%v), the published owner of its hash is %d", who, ns, pk, rng, ok, want))
+			return
+		}
+		for _, k := range fixedKeys[:3] {
+			cGetCalls.Add(1)
+			rec, ok := oxia.VerifC18RecordRoute(sm, k, pk)
+			if !ok || rec != rng {
+				in.violate("partition-key-record-route-disagrees", fmt.Sprintf("%s of %s: a put/get/delete of %q with partition key %q goes to shard %d (ok=%v), a list with that partition key to shard %d", who, ns, k, pk, rec, ok, rng))
+				return
+			}
+		}
+	}
 }
 
 func (in *inst) Key() string {
